@@ -15,6 +15,7 @@ import DimodProofs.InverterOnto
 import DimodProofs.InverterOnto2
 import DimodProofs.PenaltyOpts
 import DimodProofs.PenaltyLog10
+import DimodProofs.PenaltyMultipliers
 
 /-! # C16 — constraint-to-penalty conversions penalise exactly the violating assignments
 
@@ -667,10 +668,38 @@ theorem float_log10_undershoot_witness :
   refine ⟨hd, fun t ht => (log10_count_characterised 15 (10 ^ 15)).2 (by decide) t ht, fun t ht => ?_⟩
   exact (log10_count_characterised 16 (10 ^ 15)).1 (by rw [clog10_eq_decDigits _ (by decide), hd]) t ht
 
+/-! ## round 8: `unbalanced` with a multiplier list of any length (D76g) -/
+
+/-- **a refused `unbalanced` call changes nothing**: the source reads both multipliers before the first change
+    (`unbalancedChecksFirst`, extracted from the source), and over that rule a list of fewer than two multipliers ends in
+    the always-satisfied / infeasible exit or in an `IndexError` with NOTHING added; with two or more multipliers the list
+    form is the `.pair` form `unbalanced_as_coded` speaks about -/
+theorem unbalanced_short_list_atomic :
+    unbalancedChecksFirst = true ∧
+    (∀ (label : String) (terms : List (Label × Int)) (lams : List Rat) (c lb ub : Int) (cross : Bool), lams.length < 2 →
+      bqmUnbalancedL unbalancedChecksFirst label terms lams c lb ub cross = .skipped ∨
+      bqmUnbalancedL unbalancedChecksFirst label terms lams c lb ub cross = .infeasible ∨
+      bqmUnbalancedL unbalancedChecksFirst label terms lams c lb ub cross = .indexError []) ∧
+    (∀ (label : String) (terms : List (Label × Int)) (l0 l1 : Rat) (rest : List Rat) (c lb ub : Int) (cross : Bool) bag sl,
+      bqmIneqFull label terms (.pair l0 l1) c lb ub cross .unbalanced = .ok bag sl →
+      bqmUnbalancedL unbalancedChecksFirst label terms (l0 :: l1 :: rest) c lb ub cross = .ok bag) :=
+  ⟨by decide, fun label terms lams c lb ub cross h => unbalancedL_short_atomic label terms lams c lb ub cross h,
+    fun label terms l0 l1 rest c lb ub cross bag sl h => unbalancedL_pair _ label terms l0 l1 rest c lb ub cross bag sl h⟩
+
+/-- D76g, the concrete instance: WITHOUT the check a one-element list leaves the linear biases `3·4`, `3·2` and the offset `−3` in
+    the model (the constraint `1 ≤ 4x + 2y ≤ 3` is neither always satisfied nor infeasible) -/
+theorem unbalanced_half_applied_witness :
+    ineqPlan [4, 2] 0 1 3 = .slack 3 1 2 ∧
+    bqmUnbalancedL false "c" [(.str "x", 4), (.str "y", 2)] [3] 0 1 3 false ≠ .indexError [] := by
+  refine ⟨by decide, ?_⟩
+  simp [bqmUnbalancedL, show ineqPlan [4, 2] 0 1 3 = .slack 3 1 2 by decide]
+
 end C16
 
 section AxiomsR8
 #print axioms C16.log10_count_rule_from_source
 #print axioms C16.log10_count_characterised
 #print axioms C16.float_log10_undershoot_witness
+#print axioms C16.unbalanced_short_list_atomic
+#print axioms C16.unbalanced_half_applied_witness
 end AxiomsR8
